@@ -2849,13 +2849,15 @@ def _code_as_one__decorator_list(
 
     if fst_.is_parenthesized_tuple() is False:
         fst_._delimit_node()
-        ln = fst_.ln
+        ln, col, _, _ = fst_.loc
         has_pars = True
 
     else:
         pars = fst_.pars()
-        ln = pars.ln
+        ln, col, _, _ = pars
         has_pars = bool(pars.n)
+
+    ln, _ = lline_start(fst_._lines, 0, 0, ln, col)  # start of logical line because expression may be preceded by line continuations and the '@' must start the logical line
 
     fst_._put_src('@', ln, 0, ln, 0, False)  # prepend '@' to expression on line of expression at start to make it a _decorator_list slice
 
